@@ -40,6 +40,9 @@ def run(ctx):
     Q.rule_qsl_mappers(ctx, "R8m")
     U.rule_punycode(ctx, "R8i")
     platform_query_order(ctx, "R9")
+    # two spellings of one url are two calls: none may depend on the calls made before it
+    from . import common_state as ST
+    ST.rule_one_shot_iterators(ctx, "R10")
 
 
 PLATFORM_ORDER_CELLS = [
@@ -145,7 +148,20 @@ def reference_languages(ctx, rule, spec):
     filters = repo.const(nm, "PER_DOMAIN_QUERY_FILTERS")
     ctx.table("ural.normalize_url.PER_DOMAIN_QUERY_FILTERS")
     site = nm.site(repo.const_node(nm, "PER_DOMAIN_QUERY_FILTERS"))
-    fmap = dict((d, f) for d, f in filters)
+    from ..microeval import call_value, Obj
+    fmap = {}
+    for row in filters:
+        if isinstance(row, Obj) and "__fields__" in row.attrs:
+            # a record row: the domain is its first field, the predicate its second field or the (callable) row itself
+            fields = row.attrs["__fields__"]
+            second = row.attrs[fields[1]] if len(fields) > 1 else None
+            fmap[row.attrs[fields[0]]] = second if isinstance(second, (FuncRef, Obj)) or callable(second) else row
+        else:
+            d_, f_ = row[0], row[1]
+            fmap[d_] = f_
+
+    def run_filter(f, args):
+        return run_function(repo, f, args) if isinstance(f, FuncRef) else call_value(repo, f, args)
     for d, keys in sorted(spec["per_domain"].items()):
         f = fmap.get(d)
         if f is None:
@@ -153,16 +169,27 @@ def reference_languages(ctx, rule, spec):
             continue
         for k in keys:
             try:
-                ok = bool(run_function(repo, f, [k, "x"]))
+                ok = bool(run_filter(f, [k, "x"]))
             except Unknown as e:
                 ctx.undecided(rule, "per-domain filter %s: %s" % (d, e))
                 continue
             ctx.ob(rule, "per-domain/%s/%s" % (d, k), ok, "query key %r on %s is no longer dropped" % (k, d), site, witness="http://%s/?%s=x" % (d, k))
         try:
-            bad = bool(run_function(repo, f, ["v", "x"])) or bool(run_function(repo, f, ["id", "x"]))
+            bad = bool(run_filter(f, ["v", "x"])) or bool(run_filter(f, ["id", "x"]))
         except Unknown:
             bad = False
         ctx.ob(rule, "per-domain/%s/keeps-ordinary-keys" % d, not bad, "per-domain filter of %s drops ordinary keys (v / id)" % d, site)
+    # the filter is looked up with the host, whatever its spelling in the url (letter case, explicit port, userinfo)
+    from . import tables as TB
+    for u, want in (("https://YouTube.com/watch?v=Q5p-ZrwIC-0&si=abc", "youtube.com/watch?v=Q5p-ZrwIC-0"), ("https://www.youtube.com:443/watch?v=Q5p-ZrwIC-0&t=42s", "youtube.com/watch?v=Q5p-ZrwIC-0"),
+                    ("https://www.facebook.com:443/story.php?story_fbid=1&id=2&_rdr", "facebook.com/story.php?id=2&story_fbid=1"), ("http://user@M.Facebook.com:8080/a?_rdc=1&x=2", "facebook.com:8080/a?x=2"),
+                    ("https://notyoutube.com.evil.org/watch?t=1", "notyoutube.com.evil.org/watch?t=1"), ("https://youtube.com.evil.org/watch?si=1", "youtube.com.evil.org/watch?si=1")):
+        try:
+            got = TB.call(repo, "normalize_url", "normalize_url", u)
+        except Unknown as e:
+            ctx.undecided(rule, "normalize_url(%r): %s" % (u, e))
+            continue
+        ctx.ob(rule, "per-domain/host-spelling/%s" % u, got == want, "normalize_url(%r) gives %r, expected %r: the per-domain query filter is chosen by the host, not by the authority as written" % (u, got, want), site, witness=u)
     subdomain_labels(ctx, rule, spec)
     # '&amp;' spellings
     rx = U.regex_const(ctx, "ural.utils.MISTAKES_RE")
